@@ -55,7 +55,7 @@ def inputs_for(E, M, rng, n):
     vmax = fo.fmt_max(E, M)
     k = max(4, n // 8)
     xs = [rng.uniform(-vmax, vmax, 3 * k), rng.uniform(0, 2.0**emin, k), -rng.uniform(0, 2.0**emin, k // 2 + 1),
-          np.array([vmax, -vmax, 0.0, -0.0, 2.0**emin, 2.0 ** (emin - M), vmax * 1.01, -vmax * 1.5,
+          np.array([vmax, -vmax, 0.0, -0.0, 2.0**emin, 2.0 ** (emin - M), vmax * 1.01, -vmax * 1.5, vmax * 2.0**26, -vmax * 2.0**40, 3.0e38, -3.0e38,
                     np.nextafter(np.float32(vmax), np.float32(0)), 2.0**emin * (1 - 2.0**-24)]),
           vmax * (1 - rng.uniform(0, 2.0**-M, k // 2 + 1)),
           # log-uniform magnitudes across all binades
@@ -150,6 +150,17 @@ def run(case) -> CaseResult:
         return res
     if not torch.equal(X, keep):
         res.fail("C14.argument-modified", f"E{E}M{M}")
+    # the differentiable wrapper (quantise_fwd: what the simulated layers call) returns the same values for the same draws
+    try:
+        dq = Draws(lambda low, high, size: torch.arange(low, high).expand(size) if size[-1] == high - low else REAL_RANDINT(low, high, size))
+        with patch("torch.randint", dq):
+            Qf = fmt.quantise_fwd(X.clone().requires_grad_())
+        if Qf.shape != Qt.shape or not np.array_equal(Qf.detach().to(torch.float64).numpy().view(np.int64), Qt.to(torch.float64).numpy().view(np.int64)):
+            bad_ = (Qf.detach().to(torch.float64) != Qt.to(torch.float64)).nonzero()[0].tolist() if Qf.shape == Qt.shape else [0, 0]
+            res.fail(f"C14.quantise_fwd-differs:{tag}", f"E{E}M{M} srbits={eff}: quantise_fwd(x) != quantise(x) for x={float(xs[bad_[0]]).hex()} draw={bad_[1]}: "
+                     f"{float(Qf[bad_[0], bad_[1]])!r} vs {float(Qt[bad_[0], bad_[1]])!r}")
+    except Exception as e:  # noqa: BLE001
+        res.fail(exc_bucket("C14.raises:quantise_fwd", e), f"E{E}M{M} srbits={sr}: {type(e).__name__}: {e}")
     if Qt.shape != X.shape or Qt.dtype != X.dtype:
         res.fail("C14.shape", f"{tuple(Qt.shape)} {Qt.dtype}")
         return res
